@@ -6,7 +6,8 @@ Clauses (each one evaluation on the real `DependenceFunction.fit` / `Conditional
 bounds       fitted parameters lie inside their declared bounds (1e-9 slack relative to max(1,|bound|)).
 constraints  every declared inequality constraint c(z) >= 0 holds at the fitted parameters (slack 1e-6 * scale:
              SLSQP's own feasibility tolerance) - for the dict form and the list form.
-start        the (weighted) squared residual at the fitted parameters is no larger than at the start parameters.
+start        the (weighted) squared residual at the fitted parameters is no larger than at the start parameters
+             (checked when the start parameters are themselves admissible).
 local        ... nor than at any nearby admissible perturbation (coordinate and random directions, relative step
              1e-3 and 1e-2, kept only if inside bounds and constraints). Slack "within optimiser tolerance":
              1e-3 * SSE(perturbed) + 1e-6 * sum((y-mean y)^2).
@@ -212,16 +213,19 @@ def _eval_single(inputs):
     tss = float(np.sum((y - np.mean(y)) ** 2)) + 1e-300
     s_fit = _sse_variants(fn, p, x, y, w)
     s_0 = _sse_variants(fn, p0, x, y, w)
-    ok = any(a <= b * (1 + 1e-9) + 1e-12 * tss for a, b in zip(s_fit, s_0))
-    checks.append((case + "/start", "squared residual no larger than at the start parameters", ok, f"SSE(fit)={s_fit}, SSE(start)={s_0}"))
 
-    # nearby admissible perturbations
     def admissible(q):
         if bnds is not None:
             for k, (lo, hi) in enumerate(bnds):
                 if (lo is not None and q[k] < lo) or (hi is not None and q[k] > hi):
                     return False
         return all(f(q) >= 0 for f in cfuns)
+
+    if admissible(p0):  # an inadmissible start may of course have a smaller residual than the constrained optimum
+        ok = any(a <= b * (1 + 1e-9) + 1e-12 * tss for a, b in zip(s_fit, s_0))
+        checks.append((case + "/start", "squared residual no larger than at the (admissible) start parameters", ok, f"SSE(fit)={s_fit}, SSE(start)={s_0}"))
+
+    # nearby admissible perturbations
 
     prng = np.random.default_rng(inputs["seed"] + 1)
     dirs = [s * np.eye(len(p))[k] for k in range(len(p)) for s in (1.0, -1.0)]
